@@ -31,7 +31,9 @@ type C11Case struct {
 	Chunks  []int         `json:"chunks"`   // chunking of the released prefix
 	BufSize int           `json:"buf_size"` // 0 = plain source (Reader's own 4096-byte bufio); else *bufio.Reader of this size
 	Reads   []int         `json:"reads"`
-	Synth   *synth.Stream `json:"synth,omitempty"` // flate only: a synthesised stream (sync points = its empty stored blocks) instead of a written member
+	BodyEnd bool          `json:"body_end,omitempty"` // gzip/zlib: the source stops at the end of the DEFLATE body (trailer not delivered): all data is due, io.EOF is not
+	Multi   bool          `json:"multi,omitempty"`    // gzip: default multistream mode instead of Multistream(false)
+	Synth   *synth.Stream `json:"synth,omitempty"`    // flate only: a synthesised stream (sync points = its empty stored blocks) instead of a written member
 }
 
 var errSourceBroke = errors.New("source broke after the flush point")
@@ -73,6 +75,12 @@ func drawC11(t *rapid.T) C11Case {
 		}
 		c.Synth = sy
 		c.Point = rapid.IntRange(-1, 3).Draw(t, "spoint")
+	}
+	if c.Pkg != "flate" && c.Synth == nil {
+		c.BodyEnd = rapid.IntRange(0, 3).Draw(t, "bodyend") == 0
+		if c.Pkg == "gzip" {
+			c.Multi = rapid.Bool().Draw(t, "multi")
+		}
 	}
 	c.After = rapid.IntRange(0, 2).Draw(t, "after")
 	if rapid.Bool().Draw(t, "chunked") {
@@ -160,6 +168,28 @@ func checkC11(c C11Case) (labels []string, nontrivial bool, err error) {
 	if !atEnd {
 		release, want = points[c.Point][0], points[c.Point][1]
 	}
+	if c.BodyEnd {
+		// everything up to the last byte of the DEFLATE body, but not the trailer
+		switch c.Pkg {
+		case "gzip":
+			g := refinflate.ParseGzip(z, false)
+			if g.Verdict != refinflate.CValid {
+				return nil, false, &oracleError{"C11: member does not parse"}
+			}
+			release = g.Members[0].BodyEnd
+		case "zlib":
+			zr := refinflate.ParseZlib(z, nil)
+			if zr.Verdict != refinflate.CValid {
+				return nil, false, &oracleError{"C11: stream does not parse"}
+			}
+			release = zr.BodyEnd
+		}
+		want, atEnd = len(data), false
+	} else if atEnd && c.Multi {
+		// in multistream mode the Reader legitimately looks for a next member after the trailer:
+		// the stream-end case is only meaningful in single-member mode
+		c.Multi = false
+	}
 	D := data[:want]
 	src := &iox.Gated{Data: z, Release: release, Sizes: c.Chunks, Mode: c.After, Err: errSourceBroke, Junk: 0x55}
 	var under io.Reader = src
@@ -173,7 +203,9 @@ func checkC11(c C11Case) (labels []string, nontrivial bool, err error) {
 		if e != nil {
 			return nil, false, fmt.Errorf("gzip.NewReader with the header delivered: %v (over-demands: %d)", e, src.Over)
 		}
-		gz.Multistream(false)
+		if !c.Multi {
+			gz.Multistream(false)
+		}
 		r = gz
 	case "zlib":
 		zr, e := fzlib.NewReader(under)
@@ -245,7 +277,9 @@ func checkC11(c C11Case) (labels []string, nontrivial bool, err error) {
 	if c.Synth != nil {
 		labels = append(labels, "synthesised-stream")
 	}
-	if atEnd {
+	if c.BodyEnd {
+		labels = append(labels, "prefix-ends-at-body-end-before-trailer")
+	} else if atEnd {
 		labels = append(labels, "prefix-ends-at-stream-end")
 	} else {
 		labels = append(labels, "prefix-ends-at-flush-point")
